@@ -6,6 +6,7 @@ package c03
 
 import (
 	"context"
+	"fmt"
 	"testing"
 
 	"github.com/bufbuild/bufverif/internal/evid"
@@ -58,4 +59,16 @@ func firstWords(s string) string {
 		}
 	}
 	return "other"
+}
+
+func TestDeletionsAndReservations(t *testing.T) {
+	r := evid.R()
+	ctx := context.Background()
+	r.Check(t, r.Scale(300, 10000), 5, func(t *rapid.T) {
+		d := protogen.GenDeleteCase(t)
+		c := valueCase(&d.ValueCase)
+		c.Edit.Rules = d.Rules
+		r.Class(fmt.Sprintf("values:%s:expected-rules-%d", d.Kind, len(d.Rules)))
+		runCase(ctx, t, r, c)
+	})
 }
